@@ -331,6 +331,30 @@ Section ColumnRefinement.
     intros Hn H. rewrite <- !vertical_tendency_is_spec by exact Hn.
     apply vertical_tendency_ext; auto.
   Qed.
+  (** the upwind option: Model/Sigma.v's [upwind_vertical_advection] (tied to the code by C13) is the
+      specification's upwind operator; it vanishes on level-independent profiles, and it is the one-sided
+      difference - w dX/dsigma taken above for downward and below for upward motion *)
+  Lemma upwind_is_spec (w x : nat -> F) n :
+    upwind_vertical_advection (cK c) (cb c) w x n = spec_vadv_upwind c w x n.
+  Proof.
+    unfold upwind_vertical_advection, spec_vadv_upwind, spec_ddsigma, centered_difference, c2c. cbv zeta.
+    destruct (Nat.eqb n 0), (Nat.ltb (S n) (cK c)); rewrite ?fdiv_def; ring.
+  Qed.
+  Lemma upwind_constant (w x : nat -> F) n :
+    (forall k, x k = x 0%nat) -> spec_vadv_upwind c w x n = 0.
+  Proof.
+    intros H. unfold spec_vadv_upwind, spec_ddsigma.
+    rewrite (H (S n)), (H n), (H (S (n - 1))), (H (n - 1)%nat), !fdiv_def.
+    destruct (Nat.eqb n 0), (Nat.ltb (S n) (cK c)); ring.
+  Qed.
+  Lemma upwind_one_sided (w x : nat -> F) n :
+    (0 < n)%nat -> (S n < cK c)%nat ->
+    spec_vadv_upwind c w x n
+    = - (fmax (w (n - 1)%nat) 0 * spec_ddsigma c x (n - 1) + fmin (w n) 0 * spec_ddsigma c x n).
+  Proof.
+    intros H0 H1. unfold spec_vadv_upwind.
+    destruct (Nat.eqb_spec n 0); [lia|]. destruct (Nat.ltb_spec (S n) (cK c)); [reflexivity|lia].
+  Qed.
   Lemma g_part_is_spec (g ug : nat -> F) n :
     (n < cK c)%nat -> ug n - g_part c g n = spec_omega_p c g ug n.
   Proof.
